@@ -1,5 +1,6 @@
 CFG = {
-    "lean_targets": ["Norad.Props.C03"],
+    "lean_targets": ["Norad.Props.C03", "Norad.Props.C03Sites"],
+    "extract": "panic_sites",
     "audit": "Norad/Audit/C03.lean",
     "rule": ("SUPPORT STREAMS (sampling, not proof): structure-aware mutation (13 operators: truncation, range/tag deletion, tag duplication/rename/swap, "
              "boundary numbers and adversarial strings in attributes and text, invalid UTF-8, nesting, long values, inserted comments/CDATA/PI/DOCTYPE) of "
@@ -14,6 +15,10 @@ CFG = {
         "PARTIAL BY NATURE: the theorems cover the modelled logic (container operations, save index walk, the unreachable!() of end_path; more are added as models are merged); "
         "panics inside quick-xml / plist / serde on inputs the models never see, stack exhaustion and allocation failure are only SAMPLED by the mutation streams",
         "every other property's correspondence run also executes under catch_unwind and reports a panic as a disagreement",
+        "tools/extract_panic_sites.py (inventory of unwrap / expect / panic! / unreachable! / assert! / new_raw / slice / index sites of the non-test source, "
+        "one row per (file, fn, kind) with its count; regex tokeniser, falls back to the pinned table when a file cannot be tokenised); the classification "
+        "table of Props/C03Sites.lean: rows of class thm cite kernel-checked theorems, rows of class guard / constr / const are justified by reading the "
+        "lines around the site (not a proof), rows of class finding are recorded defects",
     ],
     "assumptions": [
         "documented panics (Glyph::new on an invalid name, WriteOptions::indent/whitespace with invalid settings, more than 99 file-name clashes) are allowed outcomes and are not generated here",
@@ -36,6 +41,10 @@ CFG = {
 MANIFEST = {
     "text": ("Totality as theorems for the modelled entry points: in every model a Rust panic site is an explicit outcome and is proved unreachable "
              "(layer_ops_no_panic over all container histories, save_no_panic_partial, end_path_unreachable_arm; the false ones are kept as _counterexample and recorded). "
+             "Source-level tie (regenerated from the Rust on every run): source_panic_sites_all_classified — every unwrap / expect / panic! / unreachable! / assert! / "
+             "new_raw call / range slice / index of norad's non-test source, counted per (file, function, kind), is covered by a classified row (proved unreachable by a "
+             "named model theorem, guarded or infallible by construction as read from the code, documented, or a recorded finding): a change that adds a "
+             "panic-capable site to a function fails the theorem until the site is justified. "
              "PARTIAL: what no model can exhibit (third-party parsers, stack depth) is sampled by structure-aware mutation streams under catch_unwind / child processes, labelled as a test."),
     "design_ref": "5 / C03",
     "note": "partial by nature: theorems for modelled logic only; parser internals, stack exhaustion and allocation are sampled, not proved",
